@@ -93,7 +93,8 @@ def rand_pdu(rng, w, ep, size, force_kind=None):
         kind = rng.choice(pdugen.KINDS)
     cur = ep.h.transaction_id
     seq_now = cur.seq_num.value if cur is not None else w.cfg["seq_start"]
-    idw = rng.choice([2, 2, 2, 2, 1, 4])
+    right = max(w.cfg["src_idw"], w.cfg["dst_idw"])
+    idw = right if rng.random() < 0.8 else rng.choice([1, 2, 4])
     conf = pdugen.conf(
         1 if rng.random() < 0.9 else rng.choice([7, 2]),
         2 if rng.random() < 0.9 else rng.choice([9, 1]),
@@ -193,6 +194,9 @@ def run_fuzz(case):
     size = rng.choice([8, 9, 12]) if case.get("script") is None else 8
     cfg = {"mode": case["mode"], "closure": rng.random() < 0.5, "size": size, "seg": 4, "imm_nak": rng.random() < 0.5, "fs": rng.choice(["mem", "mem", "native"]) if case.get("script") is None else "mem",
            "ack_limit": 2, "nak_limit": 2, "check_limit": 2, "cks": rng.choice(["crc32", "crc32", "modular", "null"]), "disp": rng.random() < 0.5}
+    if case.get("script") is None and rng.random() < 0.4:
+        # entity ids of different widths (the PDUs carry the wider one)
+        cfg["src_idw"], cfg["dst_idw"] = rng.choice([(1, 2), (2, 1), (4, 2), (2, 4), (1, 1), (4, 4), (8, 1)])
     viol, obs, keys = [], {}, {"fuzzed": []}
     actions_log = []
     with World(cfg) as w:
